@@ -19,6 +19,7 @@ struct Counters {
   uint64_t runs = 0, runs_violation = 0, runs_deadlock = 0, runs_budget = 0;
   uint64_t runs_multi = 0, runs_sweep = 0, runs_faultfree = 0;
   uint64_t canonical_compared_ops = 0;
+  uint64_t runs_fault_divergent = 0;
   uint64_t tsan_reports = 0;
   uint64_t leaked_blocks = 0;
   uint64_t policy_runs[5] = {};
